@@ -92,7 +92,90 @@ def v2_phrases_also_bip39(rng, words, prefix, n_words=12, budget=40000):
     return None
 
 
+def v2_phrase_with_word(rng, words, prefix, n_words, pos, wi, bip39_lists=(), budget=400000):
+    """a phrase of `n_words` words over `words` whose word at `pos` has index `wi` (the rest random) and whose 'Seed version' HMAC-SHA512 hex
+    digest starts with `prefix` (hmac/hashlib search), that is not a checksum-valid BIP-39 sentence in any of `bip39_lists` (the exclusion
+    rule is not what is probed).  Electrum v2 is little-endian in words: word 0 is the LEAST significant base-2048 digit.
+    Returns ([words], entropy integer = sum index_i * 2048^i) or (None, None)."""
+    import hmac, hashlib
+    from harness.props.c01 import ref_read
+    idxs = [{w: i for i, w in enumerate(l)} for l in bip39_lists]
+    for _ in range(budget):
+        ii = [rng.randrange(len(words)) for _ in range(n_words)]
+        ii[pos] = wi
+        ws = [words[i] for i in ii]
+        if not hmac.new(b"Seed version", " ".join(ws).encode("utf-8"), hashlib.sha512).hexdigest().startswith(prefix):
+            continue
+        if any(ref_read(ix, ws)[0] == "ok" for ix in idxs):
+            continue
+        return ws, sum(i * len(words) ** k for k, i in enumerate(ii))
+    return None, None
+
+
+V2_PREFIX = {"STANDARD": "01", "SEGWIT": "100", "STANDARD_2FA": "101", "SEGWIT_2FA": "102"}
+
+
+def v2_lists():
+    out = {}
+    for lang in V2_LANGS:
+        wl = Bip39WordsListGetter().GetByLanguage(Bip39Languages[lang])
+        out[lang] = [wl.GetWordAtIdx(i) for i in range(wl.Length())]
+    return out
+
+
+def v2_digit_sweep(rng, tier):
+    """Electrum v2 phrases with an extreme base-2048 digit (the first or the last word of the list: an all-zero / all-one 11-bit group) at
+    every word position of 12- and 24-word phrases, every language, standard type everywhere and the three 3-digit-prefix types at
+    rotating positions: [(language, type, [words], entropy integer, position, digit)].  A digit is zero for 1 entropy in 2048, so random
+    entropies practically never show what a codec does with it at a given position."""
+    out = []
+    lists = v2_lists()
+    k = 0
+    for lang in V2_LANGS:
+        words = lists[lang]
+        for n_words in (12, 24):
+            # quick: every position for 12 English words, elsewhere both ends, the words next to them and one inner position
+            for pos in (range(n_words) if tier == "thorough" or (lang == "ENGLISH" and n_words == 12) else sorted({0, 1, rng.randrange(2, n_words - 2), n_words - 2, n_words - 1})):
+                digits = [0, len(words) - 1] if tier == "thorough" or pos in (0, 1, n_words - 2, n_words - 1) else [(0, len(words) - 1)[(pos + k) % 2]]
+                for wi in digits:
+                    k += 1
+                    types = ["STANDARD"]
+                    if tier == "thorough":
+                        types.append(["SEGWIT", "STANDARD_2FA", "SEGWIT_2FA"][k % 3])
+                    elif k % 32 == 0 or (pos == 0 and wi == 0 and n_words == 12 and lang == "ENGLISH"):
+                        types.append(["SEGWIT", "STANDARD_2FA", "SEGWIT_2FA"][(k // 32) % 3])
+                    for t in types:
+                        ws, v = v2_phrase_with_word(rng, words, V2_PREFIX[t], n_words, pos, wi, [words])
+                        if ws is not None:
+                            out.append((lang, t, ws, v, pos, wi))
+    _SWEEP[0] = out
+    return out
+
+
+_SWEEP = [None]      # the sweep of this run, built by gen and looked at again by the relations (the direct observation points)
+
+
+def mon_ref_words(words, ent):
+    """Monero's 4 bytes -> 3 words rule (little-endian chunk, chained offsets), from its definition"""
+    n = len(words)
+    out = []
+    for i in range(0, len(ent), 4):
+        x = int.from_bytes(ent[i:i + 4], "little")
+        w1 = x % n
+        w2 = (x // n + w1) % n
+        w3 = (x // n // n + w2) % n
+        out += [words[w1], words[w2], words[w3]]
+    return out
+
+
 def gen(rng, tier):
+    # ---- Electrum v2: extreme digits at every word position (decoder with the language and type given / detected, and the encoder)
+    for lang, t, ws, v, pos, wi in v2_digit_sweep(rng, tier):
+        s = " ".join(ws)
+        cls = "v2-digit-%s-at-%s" % ("zero" if wi == 0 else "max", "first" if pos == 0 else "last" if pos == len(ws) - 1 else "inner")
+        yield Case("ev2dec", [lang, t, tx(s), oracle_for(s)], cls)
+        yield Case("ev2dec", ["auto", "any", tx(s), oracle_for(s)], cls)
+        yield Case("ev2enc", [lang, t, hx(v.to_bytes((v.bit_length() + 7) // 8, "big"))], cls + "-enc")
     # ---- Monero
     for lang in MONERO_LANGS:
         words = mon_words(lang)
@@ -361,6 +444,227 @@ def _first_use(rng, tier, rep):
     return n
 
 
+def _v2_digit_points(rng, tier, rep):
+    """every observation point accepts a phrase of legal count, in-list words and verifying version prefix whatever its base-2048 digits
+    are, and reads it little-endian (independent integer); when the most significant digit is not zero the phrase is the encoder's phrase
+    for that entropy (canonical), and the generator started at that entropy returns it"""
+    from bip_utils import ElectrumV2MnemonicValidator, ElectrumV2SeedGenerator, ElectrumV2MnemonicGenerator, ElectrumV2Mnemonic
+    v1 = set(_v1_words())
+    n = 0
+
+    def gen_round_trip(T, L, raw):
+        g = ElectrumV2MnemonicGenerator(T, L).FromEntropy(raw).ToStr()
+        return "reproduced" if ElectrumV2MnemonicEncoder(T, L).Encode(ElectrumV2MnemonicDecoder(T, L).Decode(g)).ToStr() == g else "not reproduced: " + g
+
+    sweep = _SWEEP[0] if _SWEEP[0] is not None else v2_digit_sweep(rng, tier)
+    for lang, t, ws, v, pos, wi in sweep:
+        if all(w in v1 for w in ws) or ws[-1] == v2_lists()[lang][0]:      # Electrum-v1 exclusion; most significant digit zero (listed finding F-v2-noncanon)
+            continue
+        T, L = ElectrumV2MnemonicTypes[t], ElectrumV2Languages[lang]
+        s = " ".join(ws)
+        raw = v.to_bytes((v.bit_length() + 7) // 8, "big")
+        where = "Electrum v2 %s %s phrase of %d words whose word %d (base-2048 digit %d, word 0 is the least significant) is %r" % (lang, t, len(ws), pos, pos, ws[pos])
+        obs = [("ElectrumV2MnemonicDecoder(%s, %s).Decode" % (t, lang), lambda: ElectrumV2MnemonicDecoder(T, L).Decode(s).hex(), raw.hex()),
+               ("ElectrumV2MnemonicDecoder().Decode", lambda: ElectrumV2MnemonicDecoder().Decode(s).hex(), raw.hex()),
+               ("ElectrumV2MnemonicDecoder(None, %s).Decode(ElectrumV2Mnemonic object)" % lang, lambda: ElectrumV2MnemonicDecoder(None, L).Decode(ElectrumV2Mnemonic.FromList(list(ws))).hex(), raw.hex()),
+               ("ElectrumV2MnemonicValidator(%s, %s).IsValid" % (t, lang), lambda: str(ElectrumV2MnemonicValidator(T, L).IsValid(s)), "True"),
+               ("ElectrumV2MnemonicValidator().Validate", lambda: str(ElectrumV2MnemonicValidator().Validate(s)), "None"),
+               ("ElectrumV2SeedGenerator(phrase, %s)" % lang, lambda: "a generator" if ElectrumV2SeedGenerator(s, L) else "", "a generator"),
+               ("ElectrumV2MnemonicEncoder(%s, %s).Encode" % (t, lang), lambda: ElectrumV2MnemonicEncoder(T, L).Encode(raw).ToStr(), s),
+               # (where the generator's upward search starts is its own business: whatever it returns from here is decodable and canonical)
+               ("ElectrumV2MnemonicGenerator(%s, %s).FromEntropy(this entropy), decoded and re-encoded" % (t, lang), lambda: gen_round_trip(T, L, raw), "reproduced")]
+        for name, f, want in obs:
+            n += 1
+            try:
+                got = f()
+            except Exception as ex:  # noqa
+                got = "refused (%s: %s)" % (type(ex).__name__, str(ex)[:80])
+            if got != want:
+                rep("%s departs from the Electrum v2 codec on a %s" % (name, where), "%s | entropy %s" % (s, raw.hex()), got, want)
+    return n
+
+
+def _v1_words():
+    wl = ElectrumV1WordsListGetter().GetByLanguage(ElectrumV1Languages.ENGLISH)
+    return [wl.GetWordAtIdx(i) for i in range(wl.Length())]
+
+
+def _history(rng, tier, rep):
+    """'a phrase is accepted if and only if …' speaks about the phrase: a decoder / validator object that has been asked before, about valid
+    phrases and about phrases it refused (at whatever word and for whatever reason), answers the next phrase as a fresh object does —
+    Monero, Algorand, Electrum v1, Electrum v2; language given and auto-detecting."""
+    from bip_utils import (MoneroMnemonicValidator, AlgorandMnemonicValidator, AlgorandLanguages, ElectrumV1MnemonicValidator, ElectrumV2MnemonicValidator, MoneroMnemonic)
+    from harness.props.mnemonic_common import history_independent
+    from harness.props.c01 import _rejected_variants
+    n = 0
+
+    def script_of(valid, words, foreign):
+        sc = []
+        for ws in valid:
+            good = ("valid %d-word phrase" % len(ws), " ".join(ws))
+            for rej in _rejected_variants(rng, words, ws, foreign):
+                sc += [rej, good]
+            sc.append(good)
+        if tier == "quick":
+            pairs = [sc[i:i + 2] for i in range(0, len(sc) - 1, 2)]
+            sc = [x for pr in rng.sample(pairs, min(len(pairs), 20)) for x in pr]
+        return sc
+
+    mlists = {l: mon_words(l) for l in MONERO_LANGS}
+    msets = {l: set(mlists[l]) for l in MONERO_LANGS}
+    for lang in (MONERO_LANGS if tier == "thorough" else rng.sample(MONERO_LANGS, 2)):
+        L, words = MoneroLanguages[lang], mlists[lang]
+        enc = MoneroMnemonicEncoder(L)
+        valid = []
+        for sz in (16, 32):
+            e = bytes(rng.randrange(256) for _ in range(sz))
+            valid += [enc.EncodeWithChecksum(e).ToList(), enc.EncodeNoChecksum(e).ToList()]
+        rng.shuffle(valid)
+        foreign = [w for l in MONERO_LANGS if l != lang for w in rng.sample(mlists[l], 6) if w not in words]
+        sc = script_of(valid, words, foreign)
+        for lg_name, lg in ((lang, L), ("auto-detected", None)):
+            # auto-detecting objects are only asked about token sequences that at most one list can read (which list answers otherwise is not this clause)
+            sc2 = [(k, p) for k, p in sc if lg is not None or not p.split() or sum(1 for l in MONERO_LANGS if all(w in msets[l] for w in p.split())) <= 1]
+            n += history_independent(rep, "Monero %s" % lang, [
+                ("MoneroMnemonicDecoder(%s).Decode" % lg_name, lambda: MoneroMnemonicDecoder(lg), lambda o, p: o.Decode(p)),
+                ("MoneroMnemonicValidator(%s).IsValid" % lg_name, lambda: MoneroMnemonicValidator(lg), lambda o, p: o.IsValid(p)),
+                ("MoneroMnemonicDecoder(%s).Decode(MoneroMnemonic object)" % lg_name, lambda: MoneroMnemonicDecoder(lg), lambda o, p: o.Decode(MoneroMnemonic.FromString(p))),
+                ("MoneroMnemonicValidator(%s).Validate" % lg_name, lambda: MoneroMnemonicValidator(lg), lambda o, p: o.Validate(p))], sc2)
+    eng = Bip39WordsListGetter().GetByLanguage(Bip39Languages.ENGLISH)
+    engw = [eng.GetWordAtIdx(i) for i in range(2048)]
+    foreign = [w for w in rng.sample(mlists["ENGLISH"] + mlists[MONERO_LANGS[-1]], 24) if w not in engw][:8] or ["qqqq"]
+    valid = [AlgorandMnemonicEncoder().Encode(bytes(rng.randrange(256) for _ in range(32))).ToList() for _ in range(2)]
+    for lg_name, lg in (("ENGLISH", AlgorandLanguages.ENGLISH), ("auto-detected", None)):
+        n += history_independent(rep, "Algorand", [
+            ("AlgorandMnemonicDecoder(%s).Decode" % lg_name, lambda: AlgorandMnemonicDecoder(lg), lambda o, p: o.Decode(p)),
+            ("AlgorandMnemonicValidator(%s).IsValid" % lg_name, lambda: AlgorandMnemonicValidator(lg), lambda o, p: o.IsValid(p))], script_of(valid, engw, foreign))
+    v1w = _v1_words()
+    valid = [ElectrumV1MnemonicEncoder().Encode(bytes(rng.randrange(256) for _ in range(16))).ToList() for _ in range(2)]
+    n += history_independent(rep, "Electrum v1", [
+        ("ElectrumV1MnemonicDecoder().Decode", lambda: ElectrumV1MnemonicDecoder(), lambda o, p: o.Decode(p)),
+        ("ElectrumV1MnemonicDecoder(None).Decode", lambda: ElectrumV1MnemonicDecoder(None), lambda o, p: o.Decode(p)),
+        ("ElectrumV1MnemonicValidator().IsValid", lambda: ElectrumV1MnemonicValidator(), lambda o, p: o.IsValid(p))], script_of(valid, v1w, [w for w in rng.sample(engw, 30) if w not in v1w][:8]))
+    lists = v2_lists()
+    from harness.props.c01 import words_of as _b39_words
+    b39sets = {l.name: set(_b39_words(l.name)) for l in Bip39Languages}
+    for lang in (V2_LANGS if tier == "thorough" else ["ENGLISH", rng.choice([l for l in V2_LANGS if l != "ENGLISH"])]):
+        L, words = ElectrumV2Languages[lang], lists[lang]
+        valid = [v2_phrase_with_word(rng, words, "01", nw, rng.randrange(nw), rng.randrange(2048), [words])[0] for nw in (12, 24, 12)]
+        other = [l for l in V2_LANGS if l != lang]
+        foreign = [w for l in other for w in rng.sample(lists[l], 6) if w not in words]
+        sc = script_of([v_ for v_ in valid if v_], words, foreign)
+        for lg_name, ty, lg in ((lang, ElectrumV2MnemonicTypes.STANDARD, L), ("auto-detected", None, None)):
+            sc2 = [(k, p) for k, p in sc if lg is not None or not p.split() or sum(1 for l in b39sets if all(w in b39sets[l] for w in p.split())) <= 1]      # (the finder looks through all BIP-39 lists)
+            n += history_independent(rep, "Electrum v2 %s" % lang, [
+                ("ElectrumV2MnemonicDecoder(%s, %s).Decode" % (ty.name if ty else None, lg_name), lambda: ElectrumV2MnemonicDecoder(ty, lg), lambda o, p: o.Decode(p)),
+                ("ElectrumV2MnemonicValidator(%s, %s).IsValid" % (ty.name if ty else None, lg_name), lambda: ElectrumV2MnemonicValidator(ty, lg), lambda o, p: o.IsValid(p))], sc2)
+    return n
+
+
+def _mnemonic_objects(rng, tier, rep):
+    """the phrase handed over as a Mnemonic object (the scheme's class or the generic container, built from a list or a string): every
+    observation point gives the verdict it gives for the str at EVERY attempt on the same object, and the object still spells the phrase —
+    a wrong checksum word is refused each time, an accepted phrase stays the canonical encoding of its entropy."""
+    from bip_utils import (MoneroMnemonic, MoneroMnemonicValidator, MoneroSeedGenerator, AlgorandMnemonic, AlgorandMnemonicValidator, AlgorandSeedGenerator,
+                           AlgorandLanguages, ElectrumV1Mnemonic, ElectrumV1MnemonicValidator, ElectrumV1SeedGenerator, ElectrumV2Mnemonic,
+                           ElectrumV2MnemonicValidator, ElectrumV2SeedGenerator)
+    from bip_utils.utils.mnemonic import Mnemonic
+    from harness.props.mnemonic_common import mnemonic_objects_stable
+    n = 0
+
+    def forms(cls):
+        return [(cls.__name__ + ".FromList", lambda t: cls.FromList(t)), (cls.__name__ + "(list)", lambda t: cls(t)),
+                ("Mnemonic.FromList", lambda t: Mnemonic.FromList(t)), (cls.__name__ + ".FromString", lambda t: cls.FromString(" ".join(t)))]
+
+    def wrong_last(ws, words):
+        return ws[:-1] + [rng.choice([w for w in (ws[:-1] if rng.random() < 0.5 else rng.sample(words, 4)) if w != ws[-1]])]
+
+    for lang in (MONERO_LANGS if tier == "thorough" else ["ENGLISH", rng.choice([l for l in MONERO_LANGS if l != "ENGLISH"])]):
+        L, words = MoneroLanguages[lang], mon_words(lang)
+        enc = MoneroMnemonicEncoder(L)
+        cases = []
+        for sz in (16, 32):
+            e = bytes(rng.randrange(256) for _ in range(sz))
+            ck, nock = enc.EncodeWithChecksum(e).ToList(), enc.EncodeNoChecksum(e).ToList()
+            cases += [("valid, with checksum word", ck), ("wrong checksum word", wrong_last(ck, words)), ("valid, no checksum word", nock), ("one word fewer", nock[:-1])]
+        points = [("MoneroMnemonicDecoder(%s).Decode" % lang, lambda a: MoneroMnemonicDecoder(L).Decode(a)),
+                  ("MoneroMnemonicDecoder().Decode", lambda a: MoneroMnemonicDecoder().Decode(a)),
+                  ("MoneroMnemonicValidator(%s).IsValid" % lang, lambda a: MoneroMnemonicValidator(L).IsValid(a)),
+                  ("MoneroMnemonicValidator().Validate", lambda a: MoneroMnemonicValidator().Validate(a)),
+                  ("MoneroSeedGenerator(phrase, %s).Generate" % lang, lambda a: MoneroSeedGenerator(a, L).Generate())]
+        n += mnemonic_objects_stable(rep, "Monero %s" % lang, cases, forms(MoneroMnemonic), points)
+    eng = Bip39WordsListGetter().GetByLanguage(Bip39Languages.ENGLISH)
+    engw = [eng.GetWordAtIdx(i) for i in range(2048)]
+    a = AlgorandMnemonicEncoder().Encode(bytes(rng.randrange(256) for _ in range(32))).ToList()
+    n += mnemonic_objects_stable(rep, "Algorand", [("valid", a), ("wrong checksum word", wrong_last(a, engw)), ("one word fewer", a[:-1])], forms(AlgorandMnemonic), [
+        ("AlgorandMnemonicDecoder().Decode", lambda x: AlgorandMnemonicDecoder().Decode(x)), ("AlgorandMnemonicDecoder(None).Decode", lambda x: AlgorandMnemonicDecoder(None).Decode(x)),
+        ("AlgorandMnemonicValidator().IsValid", lambda x: AlgorandMnemonicValidator().IsValid(x)), ("AlgorandSeedGenerator(phrase).Generate", lambda x: AlgorandSeedGenerator(x).Generate())])
+    v = ElectrumV1MnemonicEncoder().Encode(bytes(rng.randrange(256) for _ in range(16))).ToList()
+    n += mnemonic_objects_stable(rep, "Electrum v1", [("valid", v), ("one word fewer", v[:-1]), ("a token in no list", v[:5] + ["qqqqzzzz"] + v[6:])], forms(ElectrumV1Mnemonic), [
+        ("ElectrumV1MnemonicDecoder().Decode", lambda x: ElectrumV1MnemonicDecoder().Decode(x)), ("ElectrumV1MnemonicValidator().IsValid", lambda x: ElectrumV1MnemonicValidator().IsValid(x))
+    ] + ([("ElectrumV1SeedGenerator(phrase) constructed", lambda x: bool(ElectrumV1SeedGenerator(x)))] if tier == "thorough" else []))      # (100000 hashes per construction)
+    lists = v2_lists()
+    for lang in (V2_LANGS if tier == "thorough" else [rng.choice(V2_LANGS)]):
+        L, words = ElectrumV2Languages[lang], lists[lang]
+        cases = []
+        for nw in (12, 24):
+            ws = v2_phrase_with_word(rng, words, "01", nw, rng.randrange(nw), rng.randrange(2048), [words])[0]
+            if ws:
+                cases += [("valid", ws), ("first two words exchanged", [ws[1], ws[0]] + ws[2:]), ("one word fewer", ws[:-1])]
+        n += mnemonic_objects_stable(rep, "Electrum v2 %s" % lang, cases, forms(ElectrumV2Mnemonic), [
+            ("ElectrumV2MnemonicDecoder(STANDARD, %s).Decode" % lang, lambda x: ElectrumV2MnemonicDecoder(ElectrumV2MnemonicTypes.STANDARD, L).Decode(x)),
+            ("ElectrumV2MnemonicDecoder().Decode", lambda x: ElectrumV2MnemonicDecoder().Decode(x)),
+            ("ElectrumV2MnemonicValidator().IsValid", lambda x: ElectrumV2MnemonicValidator().IsValid(x)),
+            ("ElectrumV2SeedGenerator(phrase, %s) constructed" % lang, lambda x: bool(ElectrumV2SeedGenerator(x, L)))])
+    return n
+
+
+def _configurations(rng, tier, rep, rpt):
+    """the codecs are functions of (language, entropy / phrase) however the interpreter was started: asked again in fresh interpreters whose
+    locale encoding is not UTF-8 / that run with -OO from another directory, the encoders give the phrases this process gets (the
+    no-checksum ones are also computed from the definition) and the decoders the entropies the phrases were encoded from."""
+    from harness.props.mnemonic_common import configurations, in_configuration, task
+    from bip_utils import AlgorandLanguages
+    n = 0
+    facts = {}
+    mlists = {l: set(mon_words(l)) for l in MONERO_LANGS}
+    for config in configurations(rng)[: 1 if tier == "quick" else None]:      # (quick: the locale; C01's check runs the other configuration on the shared file reader too)
+        first = config[0].startswith("the locale")
+        tasks, wants = [], []
+        for lang in (MONERO_LANGS if first or tier == "thorough" else rng.sample(MONERO_LANGS, 2)):
+            L, words = MoneroLanguages[lang], mon_words(lang)
+            e = bytes(rng.randrange(256) for _ in range(rng.choice([16, 32])))
+            ck = MoneroMnemonicEncoder(L).EncodeWithChecksum(e).ToStr()
+            single = sum(1 for l in MONERO_LANGS if all(w in mlists[l] for w in set(ck.split(" ")))) == 1
+            tasks += [task("MoneroMnemonicEncoder", [L], "EncodeNoChecksum", e), task("MoneroMnemonicEncoder", [L], "EncodeWithChecksum", e),
+                      task("MoneroMnemonicDecoder", [L], "Decode", ck), task("MoneroMnemonicValidator", [None if single else L], "IsValid", ck)]
+            wants += [" ".join(mon_ref_words(words, e)), ck, e.hex(), "True"]
+        for lang in (V2_LANGS if first else V2_LANGS[:1]):
+            e, ph = v2_valid_entropy(rng, 132, "STANDARD", lang)
+            if ph is not None:
+                tasks += [task("ElectrumV2MnemonicEncoder", [ElectrumV2MnemonicTypes.STANDARD, ElectrumV2Languages[lang]], "Encode", e),
+                          task("ElectrumV2MnemonicDecoder", [None, ElectrumV2Languages[lang]], "Decode", ph), task("ElectrumV2MnemonicDecoder", [None, None], "Decode", ph)]
+                wants += [ph, e.hex(), e.hex()]
+        e = bytes(rng.randrange(256) for _ in range(32))
+        ph = AlgorandMnemonicEncoder().Encode(e).ToStr()
+        tasks += [task("AlgorandMnemonicEncoder", [], "Encode", e), task("AlgorandMnemonicDecoder", [None], "Decode", ph)]
+        wants += [ph, e.hex()]
+        e = bytes(rng.randrange(256) for _ in range(16))
+        ph = ElectrumV1MnemonicEncoder().Encode(e).ToStr()
+        tasks += [task("ElectrumV1MnemonicEncoder", [], "Encode", e), task("ElectrumV1MnemonicDecoder", [], "Decode", ph)]
+        wants += [ph, e.hex()]
+        info, res = in_configuration(tasks, config)
+        facts[config[0]] = info
+        for t, w, (got, detail) in zip(tasks, wants, res):
+            n += 1
+            if got != w:
+                rep("a mnemonic codec answers differently in another process configuration — %s (child: preferred encoding %s): %s(%s).%s" % (
+                    config[0], info.get("encoding"), t["cls"], ", ".join(a[1][1] if a else "None" for a in t["ctor"]), t["meth"]),
+                    t["arg"][1], (got + " " + detail).strip(), w)
+    rpt.extra["process_configurations"] = facts
+    return n
+
+
 def relations(rng, tier, rpt):
     """decode(encode(e)) == e and canonicity (encode(decode(phrase)) == phrase for accepted phrases) on the implementation."""
     bad = []
@@ -466,8 +770,12 @@ def relations(rng, tier, rpt):
         pass
     rpt.extra["v2_generator_boundary_checks"] = _v2_generator_boundaries(rng, tier, rep)
     rpt.extra["first_use_concurrent_observations"] = _first_use(rng, tier, rep)
+    rpt.extra["v2_digit_observation_points"] = _v2_digit_points(rng, tier, rep)
+    rpt.extra["history_checks"] = _history(rng, tier, rep)
+    rpt.extra["mnemonic_object_checks"] = _mnemonic_objects(rng, tier, rep)
+    rpt.extra["configuration_checks"] = _configurations(rng, tier, rep, rpt)
     rpt.extra["impl_relation_checks"] = n
-    return bad[:8]
+    return bad[:12]
 
 
 def search_broken(broken, rng):
